@@ -17,7 +17,7 @@ REQUIRED_MONITORS = {"first_tx_time": 300, "no_overlap": 300, "fifo": 100, "held
 
 REACTIONS = ["piggy", "empty+sep", "foreign-ack+sep", "rst", "silent", "icmp"]
 DELAYS = {"now": 0.0, "short": 0.3, "after-retx": 3.5}
-OFFSETS = [0.0, 0.0, 0.0, 0.01, 1.0, 5.0]
+OFFSETS = [0.0, 0.0, 0.0, 0.0, 0.01, 1.0, 5.0, 120.0]  # 120 s: after an unanswered exchange ahead has timed out
 
 
 def plan(tier, seed):
